@@ -34,6 +34,11 @@ def dotted(node):
     return None
 
 
+def norm_mtime(txt):
+    """st_mtime_ns is the same timestamp as st_mtime (integer nanoseconds instead of a float)"""
+    return txt.replace('.st_mtime_ns', '.st_mtime')
+
+
 def calls(node):
     out = []
     for n in ast.walk(node):
@@ -107,7 +112,7 @@ def main():
     valid = None
     for n in ast.walk(fns['_cache_is_valid']):
         if isinstance(n, ast.Return) and isinstance(n.value, ast.Compare) and len(n.value.ops) == 1:
-            l, r = ast.unparse(n.value.left), ast.unparse(n.value.comparators[0])
+            l, r = norm_mtime(ast.unparse(n.value.left)), norm_mtime(ast.unparse(n.value.comparators[0]))
             if l == 'store_mtime' and r == 'os.stat(filename).st_mtime':
                 valid = 'storeM %s srcM' % CMP[type(n.value.ops[0])]
             elif r == 'store_mtime' and l == 'os.stat(filename).st_mtime':
@@ -122,7 +127,7 @@ def main():
     for n in ast.walk(fns['load']):
         if isinstance(n, ast.If) and isinstance(n.test, ast.Compare) and len(n.test.ops) == 1 \
                 and n.body and isinstance(n.body[0], ast.Return):
-            l, r = ast.unparse(n.test.left), ast.unparse(n.test.comparators[0])
+            l, r = norm_mtime(ast.unparse(n.test.left)), norm_mtime(ast.unparse(n.test.comparators[0]))
             sides = {}
             for nm, txt in (('L', l), ('R', r)):
                 if txt == 'os.stat(filename).st_mtime':
